@@ -9,15 +9,15 @@ import traceback
 from . import impl
 
 APIS = ["prep", "prep_neg", "readout", "compress", "mub_circuits", "mubs", "mub_info", "fst", "smc", "conn_graph", "classify", "class_graph",
-        "expand", "to_list", "decompress", "fit_full", "fit_sub", "fit_dm", "mubs_float", "prep_strenum"]
+        "expand", "to_list", "decompress", "fit_full", "fit_sub", "fit_dm", "mubs_float", "prep_strenum", "rotate", "lookup_parse"]
 FILE_KIND = {"prep": "stab", "prep_neg": "stab", "readout": "stab", "compress": "stab", "smc": "stab",
              "expand": "none", "to_list": "none", "decompress": "none", "fit_full": "mub", "fit_sub": "mub", "fit_dm": "mub", "mubs_float": "none", "prep_strenum": "none",
              "mub_circuits": "mub", "mubs": "mub", "mub_info": "mub", "fst": "mub",
-             "conn_graph": "none", "classify": "none", "class_graph": "none"}
+             "conn_graph": "none", "classify": "none", "class_graph": "none", "rotate": "none", "lookup_parse": "stab"}
 READS = {"prep": ["infos"], "prep_neg": ["infos"], "readout": ["infos"], "compress": ["infos"], "smc": ["infos"],
          "expand": [], "to_list": [], "decompress": [], "fit_full": ["circuits"], "fit_sub": ["circuits"], "fit_dm": ["circuits"], "mubs_float": [], "prep_strenum": [],
          "mub_circuits": ["circuits"], "fst": ["circuits"], "mubs": ["mubs"], "mub_info": ["header"],
-         "conn_graph": [], "classify": [], "class_graph": []}
+         "conn_graph": [], "classify": [], "class_graph": [], "rotate": [], "lookup_parse": ["infos"]}
 LOOKUP_APIS = ["lookup_stab", "lookup_mub"]      # circuit_lookup plumbing, thorough tier only
 FILE_KIND.update({"lookup_stab": "stab", "lookup_mub": "mub"})
 READS.update({"lookup_stab": ["infos"], "lookup_mub": ["circuits", "mubs", "header"]})
@@ -65,18 +65,27 @@ def ser(o, L, depth=0):
         return [type(o).__name__] + [ser(x, L, depth + 1) for x in o]
     if isinstance(o, dict):
         return ["dict"] + sorted([[str(k), ser(v, L, depth + 1)] for k, v in o.items()], key=lambda kv: kv[0])
-    if isinstance(o, L.graph.Graph):
-        return ["graph", o.num_vertices, impl.graph_rows(o)]
-    if isinstance(o, L.stabilizer.Stabilizer):
-        return ["stab", o.num_qubits, o.R.tolist(), o.S.tolist(), o.phases.tolist()]
-    if isinstance(o, L.lc_classes.LCClassBase):
-        return ["lcclass", o.num_qubits(), int(o.type), [[int(x) for x in t.data] for g in o.data.groups for t in g]]
-    if isinstance(o, L.tomography.ReadoutInfo):
-        return ["readoutinfo", ser(o.circuit, L, depth + 1), ser(o.qubits, L, depth + 1), o.total_num_qubits]
-    if isinstance(o, L.circuit_lookup.StabilizerCircuitInfo):
-        return ["info", o.num_qubits, o.graph_id, o.cost, o.depth, o.circuit_string]
-    if isinstance(o, L.circuit_lookup.MUBInfo):
-        return ["mubinfo", o.num_qubits, o.total_cost, o.max_cost, o.max_depth, ser(o.circuits, L, depth + 1), ser(o.mubs, L, depth + 1)]
+    try:
+        if isinstance(o, L.graph.Graph):
+            return ["graph", o.num_vertices, impl.graph_rows(o)]
+        if isinstance(o, L.stabilizer.Stabilizer):
+            return ["stab", o.num_qubits, o.R.tolist(), o.S.tolist(), o.phases.tolist()]
+        if isinstance(o, L.lc_classes.LCClassBase):
+            return ["lcclass", o.num_qubits(), int(o.id())]
+    except Exception:
+        pass
+    # any other library-defined object (ReadoutInfo, StabilizerCircuitInfo, MUBInfo, whatever a later version introduces): its class name and the values of
+    # its instance attributes.  The serialisation is only ever compared with the one a fresh interpreter of the SAME tree produces, so no layout is assumed.
+    if type(o).__module__.split(".")[0] in ("htstabilizer",) or hasattr(o, "__dict__") or getattr(type(o), "__slots__", None):
+        fields = {}
+        d = getattr(o, "__dict__", None)
+        if isinstance(d, dict):
+            fields.update(d)
+        for sl in getattr(type(o), "__slots__", ()) or ():
+            if isinstance(sl, str) and hasattr(o, sl):
+                fields[sl] = getattr(o, sl)
+        if type(o).__module__.split(".")[0] == "htstabilizer":
+            return ["obj", type(o).__name__] + sorted([[str(k), ser(v, L, depth + 1)] for k, v in fields.items() if not str(k).startswith("__")], key=lambda kv: kv[0])
     return ["obj", type(o).__name__]
 
 
@@ -227,8 +236,11 @@ def make_args(api, cfg, L, held_args=None):
         return [st]
     if api == "class_graph":
         return [n, 1]
-    if api == "lookup_stab":
+    if api in ("lookup_stab", "lookup_parse"):
         return [n, conn, 1]
+    if api == "rotate":
+        # the public helper with its default inplace=False: the caller's circuit and a target with the same group but other signs (an X layer in front)
+        return [qc, St(impl.circuit_from_gates(n, [["x", 0, -1], ["x", n - 1, -1]] + [g for g in impl.gates_of(qc)]))]
     raise ValueError(api)
 
 
@@ -288,6 +300,10 @@ def call_api(api, args, L):
         return L.circuit_lookup.stabilizer_circuit_lookup(*args)
     if api == "lookup_mub":
         return L.circuit_lookup.mub_circuit_lookup(*args)
+    if api == "lookup_parse":
+        return L.circuit_lookup.stabilizer_circuit_lookup(*args).parse_circuit()
+    if api == "rotate":
+        return L.rotate_stabilizer_into_state.rotate_stabilizer_into_state(*args)
     raise ValueError(api)
 
 
@@ -355,7 +371,13 @@ def run_history(hist, L):
         kind = step[0]
         if kind == "call":
             api, cfg = step[1], step[2]
-            args = make_args(api, cfg, L, held_args)
+            try:
+                args = make_args(api, cfg, L, held_args)       # may itself call the library (the caller's long-lived fitter is built on first use)
+            except Exception as e:
+                held.append([None, None, False])
+                obs.append({"step": step, "result": digest(None), "exc": type(e).__name__ + ": " + str(e)[:100], "args_unchanged": True, "cache": project_cache(L), "stale": stale(),
+                            "ver": held_args.get("ver", 0)})
+                continue
             before = ser(args, L)
             try:
                 r = call_api(api, args, L)
